@@ -183,6 +183,8 @@ class EvaluateImpl(GraphKernel):
         loc = GraphKernel.f_graph_schedule(self, I, args, n)
         ctx = I.ctx
         i = loc.index
+        if ctx.uncaught > 0:
+            return loc      # the failure path's fold reads the slots; it is not a turn of the scan
         # ghost: this index had its turn; remember the slot value seen at the turn
         self.gset(I, "visited", z3.Store(self.gget(ctx, "visited"), i, 1))
         self.gset(I, "turn", z3.Store(self.gget(ctx, "turn"), i, self.gs.sched(ctx)[i]))
@@ -300,6 +302,26 @@ class EvaluateImpl(GraphKernel):
     def extra_main_inv(self, I, ctx):
         return []
 
+    # the unwind guard's loop (F15): after a node failure the slots behind the failing node are folded into the cache
+    FOLD_MATCH = "index = state.evaluation_cursor;"
+    MAIN_MATCH = "state.evaluation_cursor < runtime.layout.node_count"
+
+    def fold_inv(self, I, ctx):
+        gs = self.gs
+        cur = gs.get(ctx, "evaluation_cursor")
+        s, nst = gs.sched(ctx), gs.get(ctx, "next_scheduled_time")
+        idx = self.local(I, "index")
+        e = [v for k, v in ctx.loop_entry.items()][-1]
+        nst_e = e[gs.loc("next_scheduled_time").key]
+        yield "index-range", z3.And(cur <= idx, idx <= gs.n, cur >= 0)
+        yield "cache-below-every-slot-behind-the-index[C15/C02 wake-ups of the nodes the failed scan did not reach are kept]", \
+            cache_le(s, nst, self.Tn, gs.n, upto=idx)
+        yield "cache-only-lowered-to-a-pending-slot[C02 no cycle for which nothing was requested]", z3.And(
+            nst <= nst_e, z3.Or(nst == nst_e, z3.Exists([qj], z3.And(qj >= cur, qj < idx, s[qj] == nst, nst > self.Tn))))
+
+    def fold_frame(self, I, ctx):
+        return [self.gs.loc("next_scheduled_time")]
+
     def main_frame(self, I, ctx):
         gs = self.gs
         return [Loc(gs.sched_key), gs.loc("next_scheduled_time"), gs.loc("evaluation_cursor"),
@@ -358,6 +380,13 @@ class EvaluateImpl(GraphKernel):
         ctx.oblige("raises.node-failure:cursor-on-failing-node,failed-flag,not-evaluating[C15 failed_node]",
                    z3.Implies(gs.started0, z3.And(cur == ti, gs.get(ctx, "evaluation_failed"),
                                                   z3.Not(gs.get(ctx, "evaluating")))), kind="post-exceptional")
+        # property-derived (C15: in later cycles the failing node AND the rest of the graph evaluate normally again; C02: no
+        # requested wake-up is dropped): a cycle cut short by an exception still leaves the cache at or below every pending
+        # future slot -- also of the nodes the scan never reached -- because the cache is what the executor / the owning
+        # nested node asks for the next cycle (F15)
+        ctx.oblige("raises.node-failure:cache<=every-pending-future-slot[C15 later cycles evaluate normally; C02 no wake-up dropped]",
+                   z3.Implies(gs.started0, cache_le(gs.sched(ctx), gs.get(ctx, "next_scheduled_time"), self.Tn, gs.n)),
+                   kind="post-exceptional")
         self.post_exc_extra(I, exc)
 
     def post_exc_extra(self, I, exc):
@@ -370,7 +399,8 @@ class EvaluateImplNested(EvaluateImpl):
 
     @property
     def loops(self):
-        return {0: LoopSpec(self.main_inv, self.main_frame)}
+        return {0: LoopSpec(self.fold_inv, self.fold_frame, match=self.FOLD_MATCH),
+                1: LoopSpec(self.main_inv, self.main_frame, match=self.MAIN_MATCH)}
 
     def post_extra(self, I, ret):
         ctx = I.ctx
@@ -386,6 +416,12 @@ class EvaluateImplNested(EvaluateImpl):
         # C15: the message reaches try_except_/map_ unmodified: no annotation inside a nested graph
         I.ctx.oblige("raises.nested:exception-not-annotated[C15 message unchanged for the catcher]",
                      z3.BoolVal(exc.origin != "rethrow_with_node_identity"), kind="post-exceptional")
+        ctx = I.ctx
+        nst = self.gs.get(ctx, "next_scheduled_time")
+        ctx.oblige("raises.nested:parent-scheduled-at-child-cache[C09 no wake-up of the child is lost; C15 later cycles evaluate normally]",
+                   z3.Implies(self.gs.started0, z3.If(nst < MAX_DT, z3.And(self.gget(ctx, "parent_calls") == 1,
+                                                                          self.gget(ctx, "parent_when") == nst),
+                                                      self.gget(ctx, "parent_calls") == 0)), kind="post-exceptional")
 
 
 class EvaluateImplRoot(EvaluateImpl):
@@ -433,7 +469,9 @@ class EvaluateImplRoot(EvaluateImpl):
 
     @property
     def loops(self):
-        return {0: LoopSpec(self.push_inv, self.push_frame), 1: LoopSpec(self.main_inv, self.main_frame)}
+        return {0: LoopSpec(self.fold_inv, self.fold_frame, match=self.FOLD_MATCH),
+                1: LoopSpec(self.push_inv, self.push_frame, match="index < first_normal_node"),
+                2: LoopSpec(self.main_inv, self.main_frame, match=self.MAIN_MATCH)}
 
     def post_extra(self, I, ret):
         ctx = I.ctx
